@@ -175,26 +175,34 @@ class DataRxHarness(Harness):
 
 
 def _cfgs(tier):
-    """(name, packets, covers)"""
-    P = lambda L, gaps=(), idle=0: dict(length=L, gaps=tuple(gaps), idle_after=idle)
-    base = ["good", "bad_crc32", "hdr_bad", "not_data"]
+    """(name, packets, covers).  hdr: "ok" = valid header CRCs and type DATA (concrete, so that the DUT's framing
+    decisions are concrete and the CRC terms of both sides coincide), "bad" = CRC16/CRC5 masks symbolic, not both
+    zero, "notdata" = type field symbolic, not DATA."""
+    def P(L, gaps=(), idle=0, hdr="ok"):
+        d = dict(length=L, gaps=tuple(gaps), idle_after=idle)
+        d.update({"ok": dict(hdr_masks="zero", type=8), "bad": dict(hdr_masks="nonzero", type=8),
+                  "notdata": dict(hdr_masks="zero", type="notdata")}[hdr])
+        return d
+    ok = ["good", "bad_crc32"]
     cf = [
-        ("zlp", [P(0, idle=3)], base),
-        ("len1_gap_before_crc", [P(1, gaps=[7], idle=2)], base + ["tracked_word", "partial_word_out"]),
-        ("len2", [P(2, idle=2)], base + ["partial_word_out"]),
-        ("len3_gap_in_header", [P(3, gaps=[3], idle=2)], base + ["partial_word_out"]),
-        ("len4_then_zlp", [P(4), P(0, idle=2)], base + ["tracked_word", "second_verdict"]),
-        ("len5_gap_in_payload", [P(5, gaps=[7], idle=2)], base + ["tracked_word", "partial_word_out"]),
-        ("len8_gap_before_dpp", [P(8, gaps=[5, 8], idle=2)], base + ["tracked_word"]),
-        ("len7_gap_before_crc", [P(7, gaps=[8], idle=2)], base + ["partial_word_out"]),
-        ("hp_only_then_len4", [P(None), P(4, gaps=[6, 7], idle=2)], ["good", "bad_crc32"]),
+        ("zlp", [P(0, idle=3)], ok),
+        ("len1_gap_before_crc", [P(1, gaps=[7], idle=2)], ok + ["tracked_word", "partial_word_out"]),
+        ("len2", [P(2, idle=2)], ok + ["partial_word_out"]),
+        ("len3_gap_in_header", [P(3, gaps=[3], idle=2)], ok + ["partial_word_out"]),
+        ("len4_then_zlp", [P(4), P(0, idle=2)], ok + ["tracked_word", "second_verdict"]),
+        ("len5_gap_in_payload", [P(5, gaps=[7], idle=2)], ok + ["tracked_word", "partial_word_out"]),
+        ("len8_gap_before_dpp", [P(8, gaps=[5, 8], idle=2)], ok + ["tracked_word"]),
+        ("len7_gap_before_crc", [P(7, gaps=[8], idle=2)], ok + ["partial_word_out"]),
+        ("hdrbad_len4_then_len1", [P(4, hdr="bad"), P(1, gaps=[6], idle=2)], ok + ["hdr_bad"]),
+        ("notdata_len2_then_zlp", [P(2, hdr="notdata"), P(0, gaps=[6], idle=2)], ok + ["not_data"]),
+        ("hp_only_then_len4", [P(None), P(4, gaps=[6, 7], idle=2)], ok),
     ]
     if tier == "thorough":
         # every length 0..9 x one invalid cycle at every position of the packet (incl. none)
         for L in range(10):
             nwords = 6 + (L + 3) // 4 + 2
             for g in [None] + list(range(1, nwords)):
-                cf.append((f"len{L}_gap{g}", [P(L, gaps=[] if g is None else [g], idle=2)], ["good", "bad_crc32"]))
+                cf.append((f"len{L}_gap{g}", [P(L, gaps=[] if g is None else [g], idle=2)], ok))
         for L in (1, 4, 6):
             cf.append((f"len{L}_gaps_everywhere", [P(L, gaps=list(range(1, 6 + (L + 3) // 4 + 2)), idle=2)], ["good"]))
             cf.append((f"len{L}_x3", [P(L), P(L, gaps=[0]), P(L, idle=2)], ["good", "second_verdict"]))
@@ -209,7 +217,7 @@ def queries(tier):
         qs.append(Query(f"bmc_{name}", f, K, covers=covers, split=False, timeout=300,
                         desc=f"scripted framing {name}: lengths/gap positions concrete, all data, CRC masks, junk and "
                              "following traffic symbolic"))
-    f2 = lambda: DataRxHarness([dict(length=5, gaps=(7,)), dict(length=0, gaps=(), idle_after=1),
-                                dict(length=8, gaps=(2,), idle_after=2)])
+    f2 = lambda: DataRxHarness([dict(length=5, gaps=(7,), hdr_masks="zero", type=8), dict(length=0, idle_after=1),
+                                dict(length=8, gaps=(2,), idle_after=2, hdr_masks="zero", type=8)])
     qs.append(Query("cosim", f2, 0, kind="cosim", cosim_cycles=60 if tier == "quick" else 200))
     return qs
